@@ -46,6 +46,24 @@ def refs_field(prog, f, fq, depth=0, seen=None):
     return None
 
 
+def call_sites_named(prog, f, name, depth=0, seen=None):
+    """(function, call) for every call of a tbox::flow method `name` in f, its lambdas, or same-class helpers it calls"""
+    seen = seen if seen is not None else set()
+    if f is None or f.key in seen or depth > 3:
+        return []
+    seen.add(f.key)
+    out = []
+    for g in prog.family(f):
+        for st in g.calls():
+            if st.get('fn') == name and st.get('cls', '').startswith('tbox::flow::'):
+                out.append((g, st))
+    for st in f.calls():
+        for h in prog.by_usr.get(st.get('usr'), ()):
+            if not h.parent_usr and h.cls == f.cls:
+                out += call_sites_named(prog, h, name, depth + 1, seen)
+    return out
+
+
 def calls_named(prog, f, name, depth=0, seen=None):
     seen = seen if seen is not None else set()
     if f is None or f.key in seen or depth > 3:
@@ -138,6 +156,20 @@ def r1(ctx, prog):
                     h = method(prog, cname, hook)
                     ok = bool(h) and bool(refs_field(prog, h, fq)) and calls_named(prog, h, act)
                     ctx.ob('C17.R1', '%s|%s' % (short, hook), ok, '%s() propagates %s() to %s' % (hook, act, fd['n']), where=h.loc(h.body) if h else None)
+                    if hook == 'onStop' and ok:
+                        # stopping is for every child that is under way — running *or paused*: the propagation must not be filtered by a "running" test on the child
+                        for g_, c_ in call_sites_named(prog, h, 'stop'):
+                            narrow = []
+                            for cnd, k in [(c, k) for c, k, b in g_.cfg.controlling_branches(q.pt(g_, c_))]:
+                                for x in g_.walk(cnd):
+                                    sx = g_.stmts[x]
+                                    if sx['k'] in q.CALL_KINDS and sx.get('fn') == 'isRunning':
+                                        narrow.append(sx)
+                                    if sx['k'] == 'DeclRefExpr' and (sx.get('n') or '').endswith('kRunning'):
+                                        narrow.append(sx)
+                            ctx.ob('C17.R1', '%s|stop-not-filtered@%s' % (short, g_.short), not narrow, 'stop() reaches the child whatever its state (the base gate decides)' if not narrow else
+                                   'the stop propagation is filtered by a "running" test on the child (%s): a child that is paused (or blocked) when the composite is stopped is '
+                                   'skipped — it stays paused for ever and its subtree never runs its final hooks' % g_.loc(narrow[0]['i']), where=g_.loc(c_['i']))
     ctx.stats['composites'] = len(comps)
     ctx.stats['child_fields'] = n
     # the serial base propagates through curr_action_
@@ -486,6 +518,46 @@ def r8(ctx, prog):
     ctx.ob('C17.R8', 'Action|timer-interval', ok, why, where=(foreign[0][0].loc(foreign[0][1]['i']) if foreign else st_f.loc(st_f.body)))
 
 
+def r9(ctx, prog):
+    ctx.rule('C17.R9', 'A12 leaf resource matrix: an action that arms an event of its own (a TimerEvent/FdEvent member it enable()s) disarms it on every way a run can be '
+             'left or suspended — for each of Action::stop(), reset() and pause(), one of the hooks that base method calls (read from its body) is overridden by the '
+             'class and disables the event on every path. reset() does not pass through onFinal(), so a disarm there alone leaves a reset action with a live timer', floor=3)
+    base_hooks = {}
+    for m in ('stop', 'reset', 'pause'):
+        bm = method(prog, A, m, True)
+        base_hooks[m] = sorted({c.get('fn') for c in bm.calls() if (c.get('fn') or '').startswith('on') and c.get('virt')} |
+                               {c.get('fn') for c in bm.calls() if (c.get('fn') or '') in HOOKS + ('onFinal',)})
+        if not base_hooks[m]:
+            raise AnalysisBroken('Action::%s calls no hook' % m)
+    n = 0
+    for cls in prog.derived_classes(A):
+        ms = prog.methods_of(cls)
+        armed = {}
+        for g in ms:
+            for c in g.calls():
+                if c.get('fn') == 'enable' and c.get('obj') is not None and g.field_of(c['obj']) and 'Event' in ((g.s(c['obj']) or {}).get('ct') or (g.s(c['obj']) or {}).get('t') or ''):
+                    fq = g.field_of(c['obj'])
+                    if fq.startswith(cls + '::'):
+                        armed.setdefault(fq, g)
+        for fq in sorted(armed):
+            for m in ('stop', 'reset', 'pause'):
+                n += 1
+                done = None
+                for h in base_hooks[m]:
+                    ov = [g for g in ms if g.short == h]
+                    for g in ov:
+                        ds = [c for c in g.calls() if c.get('fn') == 'disable' and c.get('obj') is not None and g.field_of(c['obj']) == fq]
+                        if ds and not g.cfg.exists_path(g.cfg.entry_point(), 'exit', avoid=q.pts(g, ds), src_inclusive=True):
+                            done = h
+                ctx.ob('C17.R9', '%s|%s|%s()' % (cls.split('::')[-1], fq.split('::')[-1], m), done is not None,
+                       '%s() reaches %s, which disables %s' % (m, done, fq.split('::')[-1]) if done else
+                       'Action::%s() calls only %s, and %s overrides none of them with a disable of %s (armed in %s): after %s() the event is still live — it fires into an '
+                       'action that is idle/stopped/paused, which then reports a finish of its own accord' % (m, '/'.join(base_hooks[m]), cls.split('::')[-1], fq.split('::')[-1],
+                                                                                                          armed[fq].short, m), where=armed[fq].loc(armed[fq].body))
+    if n < 3:
+        raise AnalysisBroken('expected >= 1 leaf action with an event of its own (3 obligations), found %d obligations' % n)
+
+
 def run(ctx):
     prog = extract('ALL' if ctx.tier == 'thorough' else scope_units())
     ctx.guard(r1, ctx, prog)
@@ -496,4 +568,5 @@ def run(ctx):
     ctx.guard(r6, ctx, prog)
     ctx.guard(r7, ctx, prog)
     ctx.guard(r8, ctx, prog)
+    ctx.guard(r9, ctx, prog)
     return prog
